@@ -6,7 +6,7 @@
    response property names; publish topics) and the observed image. *)
 From Coq Require Import String List NArith Bool.
 From J5V.lib Require Import Outcome Corr Strcase.
-From J5V.model Require Import Pipeline PipelineCompile.
+From J5V.model Require Import Pipeline PipelineCompile PipelineValid.
 Import ListNotations.
 Local Open Scope N_scope.
 Local Open Scope bool_scope.
@@ -47,13 +47,24 @@ Definition method_schema_ok (obs : env) (ks : key * schema) : bool :=
   | _, _ => false
   end.
 
-(* extra: the package has an entity or a non-publish topic, which add services of their own *)
-Inductive c16compile := CCompile (P : decl_package) (extra : bool) (im : image).
+(* extra: the package has an entity or a non-publish topic, which add services (and request / response
+   objects) of their own; awkward: the generator used property names outside the classes for which ToSnake is
+   injective (fooID, HTTPServer).
+   P carries the declared names; property types and the other schemas are those of the observed source API. *)
+Inductive c16compile := CCompile (P : decl_package) (extra awkward : bool) (im : image).
+
+Definition keys_of (g : env) : list key := map fst g.
+Definition keys_same (a b : list key) : bool :=
+  forallb (fun k => mem_key k b) a && forallb (fun k => mem_key k a) b.
 
 Definition c16_compile_check (c : c16compile) : bool :=
   match c with
-  | CCompile P extra im =>
+  | CCompile P extra awkward im =>
       let ci := compile_image to_snake P in
+      (* the package the compiler accepted is inside the hypotheses of C16_full *)
+      (extra || awkward || valid_package_b to_snake P)
+      (* the schema set: the request / response objects the model adds and nothing else *)
+      && (extra || keys_same (keys_of (im_schemas ci)) (keys_of (im_schemas im))) &&
       str_eqb (im_pkg ci) (im_pkg im)
       && forallb (fun s => existsb (svc_desc_eqb (negb (str_eqb (sd_sub s) (bytes_of "topic"))) s) (im_services im))
                  (im_services ci)
